@@ -514,9 +514,11 @@ def gen_exp_case(r, tier):
     left = T
     has_ck = False
     can_crash_inside = sc["kind"] in ("MH", "CWMH", "ULA", "MALA", "NUTS", "PCN")
-    if r.random() < 0.25:
+    if r.random() < 0.3:
         ops.append({"op": "checkpoint", "path": "ck_a"})       # position 0
         has_ck = True
+        if r.random() < 0.4:
+            ops.append({"op": "crash_restart", "mode": r.choice(["same_process", "new_process"])})
     while left > 0:
         n = r.randint(1, left)
         x = r.random()
@@ -856,10 +858,10 @@ class ChainEngine(EngineBase):
 
     def gen(self, r, tier):
         x = r.random()
-        if tier == "thorough" and x < 0.25:
+        if (tier == "thorough" and x < 0.25) or (tier != "thorough" and x < 0.04):
             c = gen_exp_case(r, tier)
             c["ops"] = []
-            c["enumerate"] = r.randint(1, 10)
+            c["enumerate"] = r.randint(1, 10) if tier == "thorough" else r.randint(1, 4)
             return c
         if x < 0.55:
             return gen_exp_case(r, tier)
